@@ -47,7 +47,7 @@ public:
   wv_mutex(const wv_mutex &) = delete;
   wv_mutex &operator=(const wv_mutex &) = delete;
   void lock();
-  void unlock() noexcept;
+  void unlock();
   bool try_lock();
 };
 
